@@ -115,6 +115,72 @@ class C14(Check):
         self.A = A
         self.loop = asyncio.new_event_loop()
         self.sigs = all_signatures()
+        from vf import simrt
+        from vf.props import cache as _cache
+        simrt.prepare([A])
+        self._simrt = simrt
+        self._cache = _cache
+        self.ch = _cache.CacheHarness(A)
+
+    def run_concurrent(self, case):
+        """'The supplied mapping is the only store' after a concurrent history: threads, loops, cancelled and
+        timed-out waiters, loop shutdowns (the cache scenarios of C06) - then everything is evicted and every key
+        requested once more: each must be computed afresh exactly once and return the fresh value."""
+        simrt, C = self._simrt, self._cache
+        rng = random.Random(case['seed'])
+        scen = C.gen_takeover(rng, 'c06') if rng.random() < 0.25 else C.gen_rand(rng, 'c06')
+        scen['cache'] = rng.choice(['rec', 'rec', 'dict_obj'])
+        if scen['cache'] == 'dict_obj':
+            scen['cache'] = 'rec'
+        scen['epilogue'] = True
+        strat = C.make_strategy(rng)
+        r = self.ch.run(scen, strat, None)
+        res = CaseResult()
+        st = res.stats
+        res.sig = r.signature
+        if r.verdict == 'watchdog' or not r.clean:
+            res.dirty = True
+        if r.verdict == 'watchdog':
+            res.inconclusive = 'wall-clock watchdog'
+            return res
+        if r.thread_errors:
+            res.inconclusive = 'harness thread error: ' + repr(r.thread_errors[:2])
+            return res
+        st['concurrent_histories'] += 1
+        if r.verdict is not None:
+            st['concurrent_nonterminating_left_to_C05'] += 1
+            return res
+        log = r.log
+        ev = next((i for i, e in enumerate(log) if e[0] == 'evict_all'), None)
+        if ev is None:
+            return res
+        had = set(log[ev][1])
+        for i, e in enumerate(log):
+            if e[0] == 'eret':
+                k = e[1]
+                started = [x for x in log[ev:i] if x[0] == 'istart' and x[2] == k]
+                if e[2] == 'exc':
+                    res.violate('C14:eviction-raises', 'a call after eviction failed', key=k, exc=e[3])
+                elif e[2] == 'own_failure':
+                    if len(started) != 1 or started[0][1] != e[3]:
+                        res.violate('C14:other-store', 'the failure returned after eviction is not that of one fresh computation',
+                                    key=k)
+                elif k in had:
+                    st['evicted_key_requested_again'] += 1
+                    if len(started) != 1:
+                        res.violate('C14:other-store', 'after its entry was evicted from the supplied mapping a key was '
+                                    f'recomputed {len(started)} times instead of exactly once', key=k, value=e[3],
+                                    scenario=scen)
+                    elif tuple(e[3]) != (k, started[0][1]):
+                        res.violate('C14:wrong-value', 'the call after eviction did not return the fresh value', key=k, value=e[3])
+        res.nontrivial = bool(had) and any(c[0] == 'ret' and c[2] in ('cancelled', 'timeout') for c in log)
+        if res.nontrivial:
+            st['nontrivial'] += 1
+            st['concurrent_with_cancelled_waiter_then_evicted'] += 1
+            res.sample = {'kind': 'concurrent', 'scenario': scen, 'log': log[:60]}
+        if res.violations:
+            res.sample = {'kind': 'concurrent', 'scenario': scen, 'log': log[-60:]}
+        return res
 
     def cases(self, tier, seed):
         sigs = all_signatures()
@@ -132,6 +198,8 @@ class C14(Check):
             if rng.random() < 0.5:
                 b = self._neighbour(rng, a)
             yield {'seq': [a, b, b, a], 'cache': rng.choice(['dict', 'dict', 'map', 'lru1', 'lru2']), 'ev': []}
+        for i in range(6000 if tier == 'quick' else 150000):
+            yield {'concurrent': True, 'seed': (seed << 32) + i}
         nseq = 30000 if tier == 'quick' else 600000
         for _ in range(nseq):
             pool = [sigs[rng.randrange(n)] for _ in range(rng.randint(1, 4))]
@@ -162,6 +230,8 @@ class C14(Check):
         return (args, kw)
 
     def run_case(self, case):
+        if case.get('concurrent'):
+            return self.run_concurrent(case)
         res = CaseResult()
         st = res.stats
         A = self.A
@@ -313,7 +383,8 @@ class C14(Check):
 
     def floors(self, tier):
         k = 1 if tier == 'quick' else 15
-        return {'nontrivial': 20000 * k, 'cache_hostile': 3000 * k, 'hits_between_distinct_but_equal_signatures': 15000 * k, 'evictions': 3000 * k,
+        return {'nontrivial': 20000 * k, 'cache_hostile': 3000 * k, 'evicted_key_requested_again': 2000 * k,
+                'concurrent_with_cancelled_waiter_then_evicted': 500 * k, 'hits_between_distinct_but_equal_signatures': 15000 * k, 'evictions': 3000 * k,
                 'lru_evictions_predicted': 3000 * k, 'model_hits': 50000 * k, 'model_misses': 50000 * k}
 
 
